@@ -398,6 +398,38 @@ pub fn find_from_json(pattern: &[u32], flagstr: &str, no_opt: bool, hay: &str, s
     find_from_json2(pattern, flagstr, no_opt, hay, start, false)
 }
 
+/// The PikeVM executor through the public backends API (both input modes).
+#[cfg(feature = "backend-pikevm")]
+pub fn find_from_pike_json(pattern: &[u32], flagstr: &str, no_opt: bool, hay: &str, start: usize, ascii: bool) -> String {
+    match compile(pattern, flags_from(flagstr, no_opt)) {
+        Err(e) => format!("{{\"ok\": false, \"err\": {:?}}}", e),
+        Ok(cr) => {
+            let re: crate::api::Regex = cr.into();
+            if !(start >= hay.len() || hay.is_char_boundary(start)) {
+                return "{\"ok\": true, \"skip\": true}".into();
+            }
+            let m = if ascii {
+                crate::api::backends::find_ascii::<crate::api::backends::PikeVMExecutor>(&re, hay, start).next()
+            } else {
+                crate::api::backends::find::<crate::api::backends::PikeVMExecutor>(&re, hay, start).next()
+            };
+            match m {
+                None => "{\"ok\": true, \"m\": null}".into(),
+                Some(m) => {
+                    let mut caps = Vec::new();
+                    for c in &m.captures {
+                        caps.push(match c {
+                            None => "null".to_string(),
+                            Some(r) => format!("[{}, {}]", r.start, r.end),
+                        });
+                    }
+                    format!("{{\"ok\": true, \"m\": [{}, {}], \"caps\": [{}]}}", m.range.start, m.range.end, caps.join(", "))
+                }
+            }
+        }
+    }
+}
+
 /// The ASCII entry point (find_from_ascii).
 pub fn find_from_ascii_json(pattern: &[u32], flagstr: &str, no_opt: bool, hay: &str, start: usize) -> String {
     match compile(pattern, flags_from(flagstr, no_opt)) {
